@@ -1,21 +1,24 @@
 (* C07, normalization and make-owner: [normalize mask u] and [make_owner u] keep [produced_wf]
    (Spec/Reread.v: the condition under which an object reads back as itself), for every mask, exactly
-   outside the two defect shapes that the model reproduces from the code:
+   outside the one defect shape that the model reproduces from the code:
 
      D7b  exposes_colon   "a/../b:c" -> "b:c"    (first relative segment with ':' reads back as a scheme)
-     D14  exposes_dslash  "/..//."   -> "//"     (host-less path text beginning with "//" reads back as
-                                                  an authority; also "a/..///b" -> "//b")
+
+   The second shape of earlier versions, D14 ("/..//." -> "//": a host-less path text beginning with "//"
+   reads back as an authority; also "a/..///b" -> "//b"), was repaired in uriNormalizeSyntaxEngine, which now
+   calls uriFixAmbiguity after dot removal: [normalize_no_dslash] shows that no normalized object has that
+   shape, and the former refutation witnesses are positive examples ([dslash_guarded]).
 
    Contents
      A.  [produced_wfb_n]: boolean reflection of [produced_wf] (+ [produced_wfb_n_iff])
-     B.  the carve-outs [exposes_colon], [exposes_dslash] (on the input object and the mask) and the shapes
+     B.  the carve-out [exposes_colon] (on the input object and the mask) and the shapes
          tested at run time on the result, [rt_colon], [rt_dslash] (gen/c07.py)
      C.  the statements tested on a family of small objects before being proved (N5)
      D.  character classes: [fix_pct], [lowercase], [lowercase_except_pct], the dot-segment walk
      E.  [normalize_keeps_chars] (N1)
-     F.  [normalize_keeps_unambiguous] (N2, an equivalence), [exposes_*_is_rt_*] (N4), when no carve-out
-         applies: PATH bit clear, host, scheme / leading "/" (colon), no dot segment in the path
-     G.  [normalize_produced_wf(_iff)], [make_owner_produced_wf] (N3), refutation witnesses *)
+     F.  [normalize_keeps_unambiguous] (N2, an equivalence), [exposes_colon_is_rt_colon], [normalize_no_dslash]
+         (N4), when the carve-out does not apply: PATH bit clear, host, scheme / leading "/", no dot segment
+     G.  [normalize_produced_wf(_iff)], [make_owner_produced_wf] (N3), witnesses *)
 From Coq Require Import List NArith Bool Lia ZifyBool ZifyN Arith.
 From UP Require Import Base.Chars Base.Regex Model.Uri Model.Common Model.Normalize Spec.NormalWf Spec.Split
   Spec.Unparse Spec.Reread Proofs.NormalizeProofs.
@@ -158,7 +161,8 @@ Proof. apply produced_wfb_n_iff. Qed.
 (* ================================================================== B. the carve-outs *)
 (* [norm_segs u] (Proofs/NormalizeProofs.v) is the segment list the PATH step computes from [u]:
    percent-encodings fixed, dot segments removed (relative rule iff no scheme, no host, no leading "/"),
-   a lone empty segment dropped when there is no host. *)
+   a "." put in front of a path that would be written with "//" in front (uriFixAmbiguity), a lone empty
+   segment dropped when there is no host. *)
 
 (* D7b: PATH bit set, relative-path reference (no scheme, no host, not absolute), and the first segment
    left by dot removal contains ':' *)
@@ -170,16 +174,13 @@ Definition exposes_colon (mask : N) (u : uri) : bool :=
 Definition dslash_text (abs : bool) (segs : list text) : bool :=
   let t := (if abs then [47] else []) ++ join_slash segs in head_is 47 t && head_is 47 (tl t).
 
-(* D14: PATH bit set, no host, and the path text after dot removal begins with "//" *)
-Definition exposes_dslash (mask : N) (u : uri) : bool :=
-  bit mask M_PATH && negb (is_host_set u) && dslash_text (absolutePath u) (norm_segs u).
 
 (* what gen/c07.py tests on a produced object before a read-back failure may be attributed to a listed
    finding:  shape c08_rel_exposes_colon = no host, no scheme, not absolute, first segment contains ':' *)
 Definition rt_colon (v : uri) : bool :=
   negb (is_some (hostText v)) && negb (is_some (scheme v)) && negb (absolutePath v)
   && match pathSegs v with s :: _ => has_colon s | [] => false end.
-(* shape c08_abs_exposes_dslash = no host, path text begins with "//" *)
+(* the shape of the repaired finding D14 = no host, path text begins with "//" *)
 Definition rt_dslash (v : uri) : bool :=
   negb (is_some (hostText v)) && head_is 47 (path_text v) && head_is 47 (tl (path_text v)).
 
@@ -203,15 +204,17 @@ Definition family : list uri := family_of alphabet 4 [None; Some [83]] [None; So
 
 (* the statements of N2/N3/N4 in boolean form *)
 Definition statement_b (mask : N) (u : uri) : bool :=
-  Bool.eqb (produced_wfb_n (normalize mask u)) (negb (exposes_colon mask u || exposes_dslash mask u))
+  Bool.eqb (produced_wfb_n (normalize mask u)) (negb (exposes_colon mask u))
   && Bool.eqb (exposes_colon mask u) (rt_colon (normalize mask u))
-  && Bool.eqb (exposes_dslash mask u) (rt_dslash (normalize mask u))
+  && negb (rt_dslash (normalize mask u))
   && produced_wfb_n (make_owner u).
 
+(* the last number: objects whose path the guard changes (it was the size of the D14 shape) *)
 Lemma family_size :
   map (fun l => N.of_nat (length l))
     [family; filter produced_wfb_n family; filter (exposes_colon 8) (filter produced_wfb_n family);
-     filter (exposes_dslash 8) (filter produced_wfb_n family)] = [6248; 4160; 14; 160].
+     filter (fun u => negb (is_host_set u) && match pathSegs (normalize 8 u) with [46] :: [] :: _ => true | _ => false end)
+            (filter produced_wfb_n family)] = [6248; 4160; 14; 240].
 Proof. vm_compute. reflexivity. Qed.
 
 Lemma family_tested :
@@ -394,6 +397,11 @@ Proof.
             (match map fix_pct segs with [] => [] | _ => rds_walk rel host abs [] (map fix_pct segs) end)) as Ho.
   { destruct (map fix_pct segs) as [|s0 sl]; [constructor|].
     apply rds_walk_Forall; [apply text_ok_nil|exact Hm|constructor]. }
+  assert (forall X, Forall (text_ok is_pchar) X -> Forall (text_ok is_pchar) (guard_segs host abs X)) as Hg.
+  { intros X HX. assert (text_ok is_pchar [46]) as Hd by (split; reflexivity).
+    unfold guard_segs. destruct abs, X as [|[|? ?] [|[|? ?] ?]]; try exact HX; try (constructor; [exact Hd|exact HX]).
+    destruct host; [exact HX|constructor; [exact Hd|exact HX]]. }
+  apply Hg in Ho.
   destruct (negb host); [|exact Ho].
   match goal with |- Forall _ (match ?o with _ => _ end) => destruct o as [|[|? ?] [|? ?]] end; try exact Ho.
   constructor.
@@ -539,55 +547,6 @@ Proof.
   - symmetry. exact Hu.
 Qed.
 
-Theorem exposes_dslash_is_rt_dslash mask u : produced_wf u ->
-  exposes_dslash mask u = rt_dslash (normalize mask u).
-Proof.
-  intros Hwf. apply produced_wf_split in Hwf. destruct Hwf as [Hc Hu].
-  pose proof Hc as [_ [_ [Hh [_ [Hps _]]]]].
-  apply (unambiguous_iff_rt u (segs_noslash _ Hps)) in Hu. destruct Hu as [_ Hu].
-  unfold exposes_dslash.
-  destruct (N.eq_dec mask 0) as [E|E]; [subst mask; rewrite normalize_zero, bit_zero, Hu; reflexivity|].
-  rewrite (normalize_fields mask u E). unfold rt_dslash, path_text in *. fields.
-  destruct (host_some (bit mask M_HOST) u Hh) as [E1 E2]. rewrite E1, E2.
-  destruct (is_some (hostText u)); cbn [negb andb].
-  - destruct (bit mask M_PATH); reflexivity.
-  - rewrite orb_false_r in *. destruct (bit mask M_PATH); cbn [andb]; [reflexivity|].
-    symmetry. exact Hu.
-Qed.
-
-(* N2.  After normalization the path is unambiguous iff neither carve-out applies *)
-Theorem normalize_keeps_unambiguous mask u : produced_wf u ->
-  (path_unambiguous (normalize mask u) <-> exposes_colon mask u = false /\ exposes_dslash mask u = false).
-Proof.
-  intros Hwf. rewrite (exposes_colon_is_rt_colon mask u Hwf), (exposes_dslash_is_rt_dslash mask u Hwf).
-  apply unambiguous_iff_rt. apply segs_noslash.
-  apply produced_wf_split in Hwf. destruct Hwf as [Hc _].
-  pose proof (normalize_keeps_chars mask u Hc) as [_ [_ [_ [_ [Hps _]]]]]. exact Hps.
-Qed.
-
-(* when no carve-out applies *)
-Lemma exposes_none_path_clear mask u : bit mask M_PATH = false ->
-  exposes_colon mask u = false /\ exposes_dslash mask u = false.
-Proof. intros H. unfold exposes_colon, exposes_dslash. rewrite H. split; reflexivity. Qed.
-
-Lemma exposes_none_mask_zero u : exposes_colon 0 u = false /\ exposes_dslash 0 u = false.
-Proof. apply exposes_none_path_clear. apply bit_zero. Qed.
-
-Lemma exposes_none_host mask u : is_host_set u = true ->
-  exposes_colon mask u = false /\ exposes_dslash mask u = false.
-Proof.
-  intros H. unfold exposes_colon, exposes_dslash, relative_ref. rewrite H. cbn [negb].
-  rewrite !andb_false_r. split; reflexivity.
-Qed.
-
-Lemma exposes_colon_none_scheme mask u : is_some (scheme u) = true -> exposes_colon mask u = false.
-Proof. intros H. unfold exposes_colon, relative_ref. rewrite H. cbn [negb andb]. rewrite andb_false_r. reflexivity. Qed.
-
-Lemma exposes_colon_none_absolute mask u : absolutePath u = true -> exposes_colon mask u = false.
-Proof.
-  intros H. unfold exposes_colon, relative_ref. rewrite H. cbn [negb andb]. rewrite !andb_false_r. reflexivity.
-Qed.
-
 (* ---- the "//" shape on segment lists: the first segment is empty and, with a leading "/", another
    segment follows; without, the second is empty too and a third follows *)
 Definition seg_empty (s : text) : bool := match s with [] => true | _ => false end.
@@ -620,14 +579,63 @@ Proof.
     rewrite Ey. destruct abs; cbn [app head_is tl]; rewrite (Hne _ _ Hs); [apply andb_false_r|reflexivity].
 Qed.
 
-(* the segment-level meaning of D14 *)
-Corollary exposes_dslash_segments mask u : produced_wf u ->
-  exposes_dslash mask u
-  = bit mask M_PATH && negb (is_host_set u) && dslash_shape (absolutePath u) (map seg_empty (norm_segs u)).
+(* the repair of D14 on segments: whatever the walk leaves, after uriFixAmbiguity and uriFixEmptyTrailSegment a
+   host-less path is not of the "//" shape *)
+Lemma guard_no_dslash_shape abs out :
+  dslash_shape abs (map seg_empty (fet_segs false (guard_segs false abs out))) = false.
+Proof. destruct abs, out as [|[|c x] [|[|d y] [|z r]]]; reflexivity. Qed.
+
+Theorem norm_segs_no_dslash_shape u : is_host_set u = false ->
+  dslash_shape (absolutePath u) (map seg_empty (norm_segs u)) = false.
+Proof. intros Hh. unfold norm_segs. rewrite norm_segs_of_steps, Hh. apply guard_no_dslash_shape. Qed.
+
+(* N4, second half.  The run-time shape of the repaired finding D14 cannot be produced by normalization *)
+Theorem normalize_no_dslash mask u : produced_wf u -> rt_dslash (normalize mask u) = false.
 Proof.
-  intros Hwf. unfold exposes_dslash. f_equal. apply dslash_text_shape. apply segs_noslash.
-  apply produced_wf_split in Hwf. destruct Hwf as [[_ [_ [_ [_ [Hps _]]]]] _].
-  apply norm_segs_of_ok. exact Hps.
+  intros Hwf. pose proof Hwf as Hwf0. apply produced_wf_split in Hwf. destruct Hwf as [Hc Hu].
+  pose proof Hc as [_ [_ [Hh [_ [Hps _]]]]].
+  apply (unambiguous_iff_rt u (segs_noslash _ Hps)) in Hu. destruct Hu as [_ Hu].
+  destruct (N.eq_dec mask 0) as [E|E]; [subst mask; rewrite normalize_zero; exact Hu|].
+  rewrite (normalize_fields mask u E). unfold rt_dslash, path_text in *. fields.
+  destruct (host_some (bit mask M_HOST) u Hh) as [E1 E2]. rewrite E1.
+  destruct (is_some (hostText u)) eqn:Eh; cbn [negb andb]; [reflexivity|].
+  rewrite orb_false_r in *. destruct (bit mask M_PATH); [|exact Hu].
+  change (dslash_text (absolutePath u) (norm_segs u) = false).
+  rewrite dslash_text_shape by (apply segs_noslash; apply norm_segs_of_ok; exact Hps).
+  apply norm_segs_no_dslash_shape. rewrite E2. reflexivity.
+Qed.
+
+(* N2.  After normalization the path is unambiguous iff the carve-out does not apply *)
+Theorem normalize_keeps_unambiguous mask u : produced_wf u ->
+  (path_unambiguous (normalize mask u) <-> exposes_colon mask u = false).
+Proof.
+  intros Hwf. rewrite (exposes_colon_is_rt_colon mask u Hwf).
+  pose proof (normalize_no_dslash mask u Hwf) as Hd.
+  assert (Forall (fun s => ~ In 47 s) (pathSegs (normalize mask u))) as Hns.
+  { apply segs_noslash. apply produced_wf_split in Hwf. destruct Hwf as [Hc _].
+    pose proof (normalize_keeps_chars mask u Hc) as [_ [_ [_ [_ [Hps _]]]]]. exact Hps. }
+  rewrite (unambiguous_iff_rt _ Hns). tauto.
+Qed.
+
+(* when the carve-out does not apply *)
+Lemma exposes_none_path_clear mask u : bit mask M_PATH = false -> exposes_colon mask u = false.
+Proof. intros H. unfold exposes_colon. rewrite H. reflexivity. Qed.
+
+Lemma exposes_none_mask_zero u : exposes_colon 0 u = false.
+Proof. apply exposes_none_path_clear. apply bit_zero. Qed.
+
+Lemma exposes_none_host mask u : is_host_set u = true -> exposes_colon mask u = false.
+Proof.
+  intros H. unfold exposes_colon, relative_ref. rewrite H. cbn [negb].
+  rewrite !andb_false_r. reflexivity.
+Qed.
+
+Lemma exposes_colon_none_scheme mask u : is_some (scheme u) = true -> exposes_colon mask u = false.
+Proof. intros H. unfold exposes_colon, relative_ref. rewrite H. cbn [negb andb]. rewrite andb_false_r. reflexivity. Qed.
+
+Lemma exposes_colon_none_absolute mask u : absolutePath u = true -> exposes_colon mask u = false.
+Proof.
+  intros H. unfold exposes_colon, relative_ref. rewrite H. cbn [negb andb]. rewrite !andb_false_r. reflexivity.
 Qed.
 
 (* ---- a path without dot segments (after the percent-encodings are fixed) is only re-encoded *)
@@ -659,10 +667,9 @@ Qed.
 Definition no_dot_segs (l : list text) : bool := forallb (fun s => negb (seg_dot s) && negb (seg_dotdot s)) l.
 
 Lemma norm_segs_no_dots u : no_dot_segs (map fix_pct (pathSegs u)) = true ->
-  norm_segs u = let m := map fix_pct (pathSegs u) in
-                if negb (is_host_set u) then match m with [[]] => [] | _ => m end else m.
+  norm_segs u = fet_segs (is_host_set u) (guard_segs (is_host_set u) (absolutePath u) (map fix_pct (pathSegs u))).
 Proof.
-  intros H. unfold norm_segs, norm_segs_of. cbv zeta.
+  intros H. unfold norm_segs. rewrite norm_segs_of_steps. unfold walk0.
   assert (match map fix_pct (pathSegs u) with
           | [] => []
           | _ => rds_walk (relative_ref u) (is_host_set u) (absolutePath u) [] (map fix_pct (pathSegs u))
@@ -674,47 +681,32 @@ Proof.
 Qed.
 
 Theorem exposes_none_no_dots mask u : produced_wf u ->
-  no_dot_segs (map fix_pct (pathSegs u)) = true ->
-  exposes_colon mask u = false /\ exposes_dslash mask u = false.
+  no_dot_segs (map fix_pct (pathSegs u)) = true -> exposes_colon mask u = false.
 Proof.
-  intros Hwf Hnd. pose proof (exposes_dslash_segments mask u Hwf) as Hds.
+  intros Hwf Hnd.
   apply produced_wf_split in Hwf. destruct Hwf as [Hc Hu].
   pose proof Hc as [_ [_ [Hh [_ [Hps _]]]]].
-  apply (unambiguous_iff_rt u (segs_noslash _ Hps)) in Hu. destruct Hu as [Hu1 Hu2].
+  apply (unambiguous_iff_rt u (segs_noslash _ Hps)) in Hu. destruct Hu as [Hu1 _].
   destruct (host_some false u Hh) as [_ E2].
-  destruct (is_host_set u) eqn:Ehs; [apply exposes_none_host; exact Ehs|].
-  assert (hostText u = None) as Eh by (destruct (hostText u); [discriminate|reflexivity]).
-  unfold rt_colon, rt_dslash in *. rewrite <- E2 in *. cbn [negb andb] in *.
-  rewrite (path_text_hostless u Eh) in Hu2.
-  change (dslash_text (absolutePath u) (pathSegs u) = false) in Hu2.
-  rewrite (dslash_text_shape _ _ (segs_noslash _ Hps)) in Hu2.
-  rewrite Hds. unfold exposes_colon, relative_ref. rewrite (norm_segs_no_dots u Hnd). cbv zeta.
-  rewrite Ehs. cbn [negb]. rewrite !andb_true_r.
-  destruct (pathSegs u) as [|s r] eqn:Ep; [split; apply andb_false_r|].
+  unfold exposes_colon. destruct (relative_ref u) eqn:Erel; [|rewrite andb_false_r; reflexivity].
+  unfold relative_ref in Erel. apply andb_prop in Erel. destruct Erel as [Erel Eh]. apply andb_prop in Erel.
+  destruct Erel as [Es Ea]. apply negb_true_iff in Es, Ea, Eh.
+  unfold rt_colon in Hu1. rewrite <- E2, Eh, Es, Ea in Hu1. cbn [negb andb] in Hu1.
+  rewrite (norm_segs_no_dots u Hnd), Eh, Ea.
+  destruct (pathSegs u) as [|s r] eqn:Ep; [apply andb_false_r|].
   inversion Hps as [|? ? [_ Hs] _]; subst.
-  assert (forall X : list Chars.text, match map fix_pct (s :: r) with [[]] => [] | _ => map fix_pct (s :: r) end = X ->
-            match X with x :: _ => has_colon x | [] => false end = has_colon s \/ (X = [] /\ s = [] /\ r = [])) as Hcol.
-  { intros X EX. cbn [map] in EX. destruct (fix_pct s) as [|c0 s0] eqn:Es.
-    - assert (s = []) as Es0 by (pose proof (fix_pct_empty s) as Q; rewrite Es in Q; destruct s; [reflexivity|discriminate Q]).
-      subst s. destruct r as [|s2 r2]; cbn [map] in EX; subst X; [right; auto|left; reflexivity].
-    - subst X. left. rewrite <- Es. apply fix_pct_has_colon. exact Hs. }
-  split.
-  - match goal with |- context [match ?X with [] => false | x :: _ => has_colon x end] =>
-      destruct (Hcol X eq_refl) as [Q|[Q _]]; rewrite Q end.
-    + destruct (bit mask M_PATH), (is_some (scheme u)), (absolutePath u); cbn [negb andb] in *; auto.
-    + apply andb_false_r.
-  - match goal with |- _ && dslash_shape ?a ?e = false =>
-      assert (dslash_shape a e = dslash_shape a (map seg_empty (s :: r))) as Q end.
-    { assert (map seg_empty (map fix_pct (s :: r)) = map seg_empty (s :: r)) as Qm.
-      { rewrite map_map. apply map_ext. exact fix_pct_empty. }
-      destruct (map fix_pct (s :: r)) as [|[|? ?] [|? ?]] eqn:Em; rewrite <- Qm; try reflexivity.
-      destruct (absolutePath u); reflexivity. }
-    rewrite Q, Hu2. apply andb_false_r.
+  assert (match fet_segs false (guard_segs false false (map fix_pct (s :: r))) with
+          | x :: _ => has_colon x | [] => false end = false) as Q.
+  { cbn [map]. destruct (fix_pct s) as [|c0 s0] eqn:Es0.
+    - destruct (map fix_pct r) as [|[|c1 s1] r1]; reflexivity.
+    - assert (has_colon (c0 :: s0) = false) as Hc0 by (rewrite <- Es0, fix_pct_has_colon by exact Hs; exact Hu1).
+      destruct (map fix_pct r) as [|x1 r1]; exact Hc0. }
+  rewrite Q. apply andb_false_r.
 Qed.
 
 (* ================================================================== G. N3 *)
 Theorem normalize_produced_wf_iff mask u : produced_wf u ->
-  (produced_wf (normalize mask u) <-> exposes_colon mask u = false /\ exposes_dslash mask u = false).
+  (produced_wf (normalize mask u) <-> exposes_colon mask u = false).
 Proof.
   intros Hwf. rewrite <- (normalize_keeps_unambiguous mask u Hwf), produced_wf_split.
   apply produced_wf_split in Hwf. destruct Hwf as [Hc _].
@@ -722,17 +714,18 @@ Proof.
 Qed.
 
 Theorem normalize_produced_wf mask u : produced_wf u ->
-  exposes_colon mask u = false -> exposes_dslash mask u = false -> produced_wf (normalize mask u).
-Proof. intros Hwf H1 H2. apply (normalize_produced_wf_iff mask u Hwf). split; assumption. Qed.
+  exposes_colon mask u = false -> produced_wf (normalize mask u).
+Proof. intros Hwf H1. apply (normalize_produced_wf_iff mask u Hwf). exact H1. Qed.
 
 (* uriMakeOwner changes who owns the memory, nothing else *)
 Theorem make_owner_produced_wf u : produced_wf u -> produced_wf (make_owner u).
 Proof. destruct u. intros H. exact H. Qed.
 
-(* Each carve-out is needed: an object satisfying [produced_wf] and the other hypothesis whose
-   normalization (PATH bit alone, or all bits) does not satisfy [produced_wf]. *)
+(* The carve-out is needed: an object satisfying [produced_wf] whose normalization (PATH bit alone, or all
+   bits) does not satisfy [produced_wf]. *)
 Definition wit_colon : uri :=                        (* a/../b:c *)
   mkUri None None None None None None None [[97]; [46; 46]; [98; 58; 99]] None None false false.
+(* the witnesses of the repaired finding D14 *)
 Definition wit_dslash : uri :=                       (* /..//. *)
   mkUri None None None None None None None [[46; 46]; []; [46]] None None true false.
 Definition wit_dslash_scheme : uri :=                (* s:/..//. *)
@@ -744,7 +737,7 @@ Lemma not_wf_by_compute v : produced_wfb_n v = false -> ~ produced_wf v.
 Proof. intros H Hwf. apply produced_wfb_n_iff in Hwf. congruence. Qed.
 
 Theorem exposes_colon_refuted :
-  produced_wf wit_colon /\ exposes_dslash 8 wit_colon = false /\ exposes_dslash 63 wit_colon = false
+  produced_wf wit_colon
   /\ exposes_colon 8 wit_colon = true
   /\ pathSegs (normalize 8 wit_colon) = [[98; 58; 99]]
   /\ ~ produced_wf (normalize 8 wit_colon) /\ ~ produced_wf (normalize 63 wit_colon).
@@ -753,17 +746,24 @@ Proof.
   repeat split; try (vm_compute; reflexivity); apply not_wf_by_compute; vm_compute; reflexivity.
 Qed.
 
-Theorem exposes_dslash_refuted :
+(* was exposes_dslash_refuted (D14): "/..//." gave "//", "s:/..//." gave "s://", "a/..///b" gave "//b", none of
+   them [produced_wf].  Now they give "/.//", "s:/.//", ".///b": the guard segment is in place, the path
+   text does not begin with "//", and the results are [produced_wf] *)
+Theorem dslash_guarded :
   forall w, In w [wit_dslash; wit_dslash_scheme; wit_dslash_rel] ->
   produced_wf w /\ exposes_colon 8 w = false /\ exposes_colon 63 w = false
-  /\ exposes_dslash 8 w = true
-  /\ head_is 47 (path_text (normalize 8 w)) && head_is 47 (tl (path_text (normalize 8 w))) = true
-  /\ ~ produced_wf (normalize 8 w) /\ ~ produced_wf (normalize 63 w).
+  /\ match pathSegs (normalize 8 w) with [46] :: [] :: _ => True | _ => False end
+  /\ head_is 47 (path_text (normalize 8 w)) && head_is 47 (tl (path_text (normalize 8 w))) = false
+  /\ produced_wf (normalize 8 w) /\ produced_wf (normalize 63 w).
 Proof.
   intros w [E|[E|[E|[]]]]; subst w;
     (split; [apply produced_wfb_n_sound; vm_compute; reflexivity|]);
-    repeat split; try (vm_compute; reflexivity); apply not_wf_by_compute; vm_compute; reflexivity.
+    (split; [vm_compute; reflexivity|]); (split; [vm_compute; reflexivity|]);
+    (split; [vm_compute; exact I|]); (split; [vm_compute; reflexivity|]);
+    split; apply produced_wfb_n_sound; vm_compute; reflexivity.
 Qed.
 
-Lemma wit_dslash_text : path_text (normalize 8 wit_dslash) = [47; 47].
-Proof. vm_compute. reflexivity. Qed.
+Lemma wit_dslash_text :
+  path_text (normalize 8 wit_dslash) = [47; 46; 47; 47] /\ path_text (normalize 8 wit_dslash_scheme) = [47; 46; 47; 47]
+  /\ path_text (normalize 8 wit_dslash_rel) = [46; 47; 47; 47; 98].
+Proof. vm_compute. repeat split. Qed.
